@@ -9,11 +9,13 @@
 (* Item shape: see AsmRef.tla.  Gaps is the set of gap sizes of the        *)
 (* distance class under test (real RISC-V constants, nothing scaled).      *)
 (***************************************************************************)
-EXTENDS Integers, Sequences, FiniteSets, TLC
+EXTENDS Integers, Sequences, FiniteSets, TLC, AsmData
 
 CONSTANTS Class, MaxLen, Gaps, MaxGapItems
 
-It(k, m, f, a, b, c, t, n) == [k |-> k, m |-> m, f |-> f, a |-> a, b |-> b, c |-> c, t |-> t, n |-> n]
+It(k, m, f, a, b, c, t, n) == [k |-> k, m |-> m, f |-> f, a |-> a, b |-> b, c |-> c, t |-> t, n |-> n, bs |-> <<>>]
+\* a data directive written out as source text, with the bytes AsmData says it must emit
+Raw(text, bytes) == [It("raw", text, "", 0, 0, 0, "", Len(bytes)) EXCEPT !.bs = bytes]
 Lab(t) == It("lab", "", "", 0, 0, 0, t, 0)
 Ins(m, a, b, c) == It("ins", m, "", a, b, c, "", 0)
 Pins(m, a, b) == It("pins", m, "", a, b, 0, "", 0)
@@ -90,7 +92,25 @@ OddAlign ==
   << Lab("L1"), IC, I4, Br("beq", 8, 0, "L1"), Br("blt", 5, 6, "L1"), Jal(1, "L1"), Jal(5, "L1"), Pj("j", "L1"),
      Data(1), Data(2), Data(3), Align(2), Align(3), Align(5), Align(4) >>
 
-Alpha == CASE Class = "abs" -> Abs [] Class = "oddalign" -> OddAlign [] Class = "control" -> Control [] Class = "far" -> Far [] Class = "values" -> Values
+\* every kind of data directive (sizes 0..8, odd and even), with aligns, labels and a compressible instruction
+DataMix ==
+  << Lab("L1"), IC, Br("beq", 8, 0, "L1"), Dw("bare", "L1", 0),
+     Raw("db -1", EmitInt(1, TRUE, FromInt(1), "infer", FALSE)),
+     Raw("dh 0x1234", EmitInt(2, FALSE, FromInt(4660), "infer", FALSE)),
+     Raw("dd 5", EmitInt(8, FALSE, FromInt(5), "infer", FALSE)),
+     Raw("shorts 1 -2 3", EmitInt(2, FALSE, FromInt(1), "infer", FALSE) \o EmitInt(2, TRUE, FromInt(2), "infer", FALSE) \o EmitInt(2, FALSE, FromInt(3), "infer", FALSE)),
+     Raw("longs 7", EmitInt(4, FALSE, FromInt(7), "infer", FALSE)),
+     Raw("longlongs -1", EmitInt(8, TRUE, FromInt(1), "infer", FALSE)),
+     Raw("bytes 1 2 3", <<1, 2, 3>>),
+     Raw("pack >H 258", EmitInt(2, FALSE, FromInt(258), "u", TRUE)),
+     Raw("pack <q -2", EmitInt(8, TRUE, FromInt(2), "s", FALSE)),
+     Raw("pack <l 9", EmitInt(4, FALSE, FromInt(9), "s", FALSE)),
+     Raw("string ab", StringBytes(<<97, 98>>)),
+     Raw("string h\\x41\\n", StringBytes(<<104, 92, 120, 52, 49, 92, 110>>)),
+     Raw("string " \o "\"q\" #", StringBytes(<<34, 113, 34, 32, 35>>)),
+     Align(2), Align(4), Align(8), Align(3) >> \o GapItems
+
+Alpha == CASE Class = "datamix" -> DataMix [] Class = "abs" -> Abs [] Class = "oddalign" -> OddAlign [] Class = "control" -> Control [] Class = "far" -> Far [] Class = "values" -> Values
            [] Class = "aligns" -> Aligns [] OTHER -> Literals
 
 VARIABLE prog      \* sequence of alphabet indices
